@@ -17,6 +17,15 @@
 //!  inflight      : deterministic interleavings of ONE streamed writer with full_gc / repair between
 //!                  its write() and finish() (opt-in).
 //!
+//! Damage: half of the sequential programs and a third of the concurrent rounds leave an injected
+//! damage (a chunk record removed, all chunk records of one artifact removed, or a chunk's `_data`
+//! altered) IN the store and go on using it: further uploads that share chunks with damaged and
+//! healthy artifacts, deletes, incremental and full collections, repair.  From then on an artifact
+//! whose stored chunks all still hold its bytes is judged exactly as before (byte-exact read, verify
+//! true, its chunks never collected); an artifact that is unhealthy only through keys the harness
+//! itself damaged is judged by verify reporting it; reference counts stay conserved for every
+//! chunk except keys whose record the harness removed (their count is void from then on).
+//!
 //! Time: `gc_min_age = 0` everywhere; `gc` collects a zero-reference chunk only when its `_created`
 //! second is strictly older than "now", so the harness lets time pass either by really sleeping
 //! 1.1 s (a few cases) or — equivalent for the code, which only ever compares `_created` with the
@@ -97,6 +106,72 @@ fn occurrences<'a>(v: &View, live: impl Iterator<Item = &'a String>) -> HashMap<
         }
     }
     occ
+}
+
+/// What the harness itself did to the store underneath the blob layer (sticky for the rest of the
+/// program): `lost` = keys whose record it removed at some time (the reference count of such a key is
+/// void from then on, also after a later upload re-creates it); `altered` = keys whose `_data` it
+/// changed (the record and its `_refs` were kept, so the count is still meaningful).
+#[derive(Default, Clone)]
+struct Damage {
+    lost: BTreeSet<String>,
+    altered: BTreeSet<String>,
+}
+impl Damage {
+    fn any(&self) -> bool {
+        !self.lost.is_empty() || !self.altered.is_empty()
+    }
+}
+
+#[derive(PartialEq, Eq, Debug, Clone, Copy)]
+enum Health {
+    /// every listed chunk holds exactly the artifact's bytes (or the list has an unexpected shape:
+    /// then the ordinary read check decides)
+    Judge,
+    /// unhealthy, and every bad position is a key the harness damaged; `content_differs` = the stored
+    /// concatenation is not the artifact's bytes (so verification has something to report)
+    Excused { content_differs: bool },
+}
+
+fn health(v: &View, list: Option<&Vec<String>>, want: &[u8], c: usize, dmg: &Damage) -> Health {
+    let list = match list {
+        Some(l) => l,
+        None => return Health::Judge,
+    };
+    if !dmg.any() || list.len() != want.len().div_ceil(c) {
+        return Health::Judge;
+    }
+    let mut bad = 0;
+    let mut concat: Option<Vec<u8>> = Some(Vec::with_capacity(want.len()));
+    for (i, k) in list.iter().enumerate() {
+        let exp = &want[i * c..((i + 1) * c).min(want.len())];
+        match v.chunks.get(k) {
+            None => {
+                if !dmg.lost.contains(k) {
+                    return Health::Judge; // not the harness's doing: the read check reports it
+                }
+                bad += 1;
+                concat = None;
+            }
+            Some(rec) => {
+                match (&rec.data, concat.as_mut()) {
+                    (Some(d), Some(cc)) => cc.extend_from_slice(d),
+                    _ => concat = None,
+                }
+                if rec.data.as_deref() != Some(exp) {
+                    if !dmg.altered.contains(k) {
+                        return Health::Judge;
+                    }
+                    bad += 1;
+                }
+            }
+        }
+    }
+    if bad == 0 {
+        Health::Judge
+    } else {
+        Health::Excused { content_differs: concat.as_deref() != Some(want) }
+    }
 }
 
 /// let `secs` seconds pass for the collector: it only compares `_created` with the clock
@@ -249,29 +324,58 @@ struct Slack<'a> {
 /// Judges one quiescent state: every live artifact reads back exactly and verifies; every chunk's
 /// stored reference count equals its occurrences in live artifacts' chunk lists (+ what open /
 /// abandoned writers legitimately hold); every referenced chunk exists; no content is stored
-/// under two chunk keys; every stored chunk matches its content address.
-async fn check_quiescent(blob: &BlobStore, store: &TensorStore, live: &Live, slack: &Slack<'_>, prefix: &str, r: &mut Report) -> Option<Viol> {
+/// under two chunk keys; every stored chunk matches its content address.  With harness-injected
+/// damage present (see `Damage`): artifacts unhealthy only through damaged keys must be reported by
+/// verify and are not read; everything else is judged as before; counts of `lost` keys are void.
+#[allow(clippy::too_many_arguments)]
+async fn check_quiescent(blob: &BlobStore, store: &TensorStore, live: &Live, slack: &Slack<'_>, dmg: &Damage, c: usize, prefix: &str, when: &str, r: &mut Report) -> Option<Viol> {
+    let v = view(store);
+    let mut excused = 0u64;
     for (id, want) in live {
-        if let Err(v) = read_check(blob, id, want, prefix, "").await {
+        if let Health::Excused { content_differs } = health(&v, v.metas.get(id), want, c, dmg) {
+            excused += 1;
+            if content_differs {
+                match blob.verify(id) {
+                    Ok(true) => {
+                        return Some((
+                            format!("{prefix}:verify-true-on-damaged-artifact:persistent"),
+                            format!("artifact {} has a damaged chunk in the store (stored content differs from what was written) and verify() = Ok(true)", sid(id)),
+                        ))
+                    }
+                    _ => r.count("damaged_artifacts_reported_by_verify", 1),
+                }
+            }
+            continue;
+        }
+        if let Err(v) = read_check(blob, id, want, prefix, when).await {
             return Some(v);
         }
         r.count("reads_checked", 1);
+        if dmg.any() {
+            r.count("healthy_reads_with_damage_present", 1);
+        }
         match blob.verify(id) {
             Ok(true) => r.count("verify_true_on_undamaged", 1),
-            Ok(false) => return Some((format!("{prefix}:verify-false-on-undamaged-artifact"), format!("verify({}) = false although get() returned the written bytes", sid(&id)))),
-            Err(e) => return Some((format!("{prefix}:verify-error-on-undamaged-artifact"), format!("verify({}) = Err({})", sid(&id), err_name(&e)))),
+            Ok(false) => return Some((format!("{prefix}:verify-false-on-undamaged-artifact"), format!("verify({}) = false although get() returned the written bytes", sid(id)))),
+            Err(e) => return Some((format!("{prefix}:verify-error-on-undamaged-artifact"), format!("verify({}) = Err({})", sid(id), err_name(&e)))),
         }
     }
-    let v = view(store);
+    if excused > 0 {
+        r.count("quiescent_checks_with_damaged_artifact", 1);
+    }
     let occ = occurrences(&v, live.keys());
     // every referenced chunk exists
     for (k, n) in &occ {
-        if !v.chunks.contains_key(k) {
+        if !v.chunks.contains_key(k) && !dmg.lost.contains(k) {
             return Some((format!("{prefix}:referenced-chunk-absent"), format!("chunk {} occurs {} time(s) in live artifacts' lists but has no record", short(k), n)));
         }
     }
     let mut seen: HashMap<&[u8], &String> = HashMap::new();
     for (k, rec) in &v.chunks {
+        if dmg.lost.contains(k) {
+            r.count("info_chunks_with_void_count_skipped", 1);
+            continue;
+        }
         let o = occ.get(k).copied().unwrap_or(0);
         let lo = o + slack.pending.get(k).copied().unwrap_or(0);
         let hi = lo + slack.extra.get(k).copied().unwrap_or(0);
@@ -279,7 +383,14 @@ async fn check_quiescent(blob: &BlobStore, store: &TensorStore, live: &Live, sla
         if refs < lo {
             return Some((
                 format!("{prefix}:refcount-undercount"),
-                format!("chunk {}: stored _refs = {:?} but it occurs {} time(s) in the chunk lists of live artifacts (+{} held by open writers)", short(k), rec.refs, o, lo - o),
+                format!(
+                    "chunk {}{}: stored _refs = {:?} but it occurs {} time(s) in the chunk lists of live artifacts (+{} held by open writers)",
+                    short(k),
+                    if dmg.altered.contains(k) { " (its _data was altered underneath earlier; record and _refs were kept)" } else { "" },
+                    rec.refs,
+                    o,
+                    lo - o
+                ),
             ));
         }
         if refs > hi {
@@ -292,6 +403,10 @@ async fn check_quiescent(blob: &BlobStore, store: &TensorStore, live: &Live, sla
         r.count("chunk_refcounts_checked", 1);
         if o >= 2 {
             r.count("shared_chunk_observations", 1);
+        }
+        if dmg.altered.contains(k) {
+            r.count("altered_chunk_refcounts_checked", 1);
+            continue; // its content is the harness's doing: no content checks
         }
         if let Some(d) = &rec.data {
             if let Some(other) = seen.insert(d.as_slice(), k) {
@@ -342,11 +457,14 @@ async fn mk_blob(c: Option<usize>, batch: usize) -> Result<(BlobStore, TensorSto
     }
 }
 
-const DAMAGE_KINDS: [&str; 6] = ["flip-byte", "truncate", "append-byte", "delete-chunk", "data-wrong-type", "replace-content"];
+const DAMAGE_KINDS: [&str; 7] = ["flip-byte", "truncate", "append-byte", "delete-chunk", "data-wrong-type", "replace-content", "delete-all-chunks"];
 
-/// damage one chunk of a live artifact underneath the blob layer; every verification of an artifact
-/// containing it must then not answer Ok(true); afterwards the original record is put back.
-async fn damage_check(blob: &BlobStore, store: &TensorStore, live: &Live, rng: &mut Rng, r: &mut Report, trace: &mut Vec<String>) -> Option<Viol> {
+/// Damage chunk record(s) of a live artifact underneath the blob layer; every verification of an
+/// artifact containing a damaged chunk must then not answer Ok(true).  `persist` = false: the original
+/// records are put back afterwards; true: the damage stays for the rest of the program and is
+/// recorded in `dmg`.
+#[allow(clippy::too_many_arguments)]
+async fn damage_check(blob: &BlobStore, store: &TensorStore, live: &Live, c: usize, persist: bool, dmg: &mut Damage, rng: &mut Rng, r: &mut Report, trace: &mut Vec<String>, prefix: &str) -> Option<Viol> {
     let v = view(store);
     let cands: Vec<&String> = live.keys().filter(|id| v.metas.get(*id).map(|l| !l.is_empty()).unwrap_or(false)).collect();
     if cands.is_empty() {
@@ -354,67 +472,119 @@ async fn damage_check(blob: &BlobStore, store: &TensorStore, live: &Live, rng: &
     }
     let id = (*rng.pick(&cands)).clone();
     let list = &v.metas[&id];
-    let key = rng.pick(list).clone();
-    let orig = match store.get(&key) {
-        Ok(t) => t,
-        Err(_) => return None,
-    };
-    let data = t_bytes(&orig, "_data").unwrap_or_default();
     let kind = DAMAGE_KINDS[rng.below(DAMAGE_KINDS.len())];
-    let mut t = orig.clone();
-    let mut deleted = false;
-    match kind {
-        "flip-byte" => {
-            let mut d = data.clone();
-            if d.is_empty() {
-                return None;
+    // (key, original record, new record or None = remove)
+    let mut changes: Vec<(String, TensorData, Option<TensorData>)> = Vec::new();
+    if kind == "delete-all-chunks" {
+        let keys: BTreeSet<&String> = list.iter().collect();
+        for k in keys {
+            if let Ok(t) = store.get(k) {
+                changes.push((k.clone(), t, None));
             }
-            let i = rng.below(d.len());
-            d[i] ^= 1 << rng.below(8);
-            t.set("_data", TensorValue::Scalar(ScalarValue::Bytes(d)));
         }
-        "truncate" => {
-            let mut d = data.clone();
-            if d.is_empty() {
-                return None;
-            }
-            d.pop();
-            t.set("_data", TensorValue::Scalar(ScalarValue::Bytes(d)));
+    } else {
+        // never alter a record that already carries an alteration: two of them can cancel out
+        let fresh: Vec<&String> = list.iter().filter(|k| kind == "delete-chunk" || !dmg.altered.contains(*k)).collect();
+        if fresh.is_empty() {
+            return None;
         }
-        "append-byte" => {
-            let mut d = data.clone();
-            d.push(rng.next_u64() as u8);
-            t.set("_data", TensorValue::Scalar(ScalarValue::Bytes(d)));
-        }
-        "delete-chunk" => deleted = true,
-        "data-wrong-type" => t.set("_data", TensorValue::Scalar(ScalarValue::Int(7))),
-        _ => {
-            let mut d = rng.bytes(data.len());
-            if d == data {
+        let key = (*rng.pick(&fresh)).clone();
+        let orig = match store.get(&key) {
+            Ok(t) => t,
+            Err(_) => return None,
+        };
+        let data = t_bytes(&orig, "_data").unwrap_or_default();
+        let mut t = orig.clone();
+        let new = match kind {
+            "flip-byte" => {
+                let mut d = data.clone();
                 if d.is_empty() {
                     return None;
                 }
-                d[0] ^= 0xFF;
+                let i = rng.below(d.len());
+                d[i] ^= 1 << rng.below(8);
+                t.set("_data", TensorValue::Scalar(ScalarValue::Bytes(d)));
+                Some(t)
             }
-            t.set("_data", TensorValue::Scalar(ScalarValue::Bytes(d)));
-        }
+            "truncate" => {
+                let mut d = data.clone();
+                if d.is_empty() {
+                    return None;
+                }
+                d.pop();
+                t.set("_data", TensorValue::Scalar(ScalarValue::Bytes(d)));
+                Some(t)
+            }
+            "append-byte" => {
+                let mut d = data.clone();
+                d.push(rng.next_u64() as u8);
+                t.set("_data", TensorValue::Scalar(ScalarValue::Bytes(d)));
+                Some(t)
+            }
+            "delete-chunk" => None,
+            "data-wrong-type" => {
+                t.set("_data", TensorValue::Scalar(ScalarValue::Int(7)));
+                Some(t)
+            }
+            _ => {
+                let mut d = rng.bytes(data.len());
+                if d == data {
+                    if d.is_empty() {
+                        return None;
+                    }
+                    d[0] ^= 0xFF;
+                }
+                t.set("_data", TensorValue::Scalar(ScalarValue::Bytes(d)));
+                Some(t)
+            }
+        };
+        changes.push((key, orig, new));
     }
-    if deleted {
-        if store.delete(&key).is_err() {
-            return None;
-        }
-    } else if store.put(key.clone(), t).is_err() {
+    if changes.is_empty() {
         return None;
     }
-    trace.push(format!("damage[{}] chunk {} of {}", kind, short(&key), sid(&id)));
+    let mut applied: Vec<(String, TensorData, bool)> = Vec::new(); // (key, original, removed)
+    for (k, orig, new) in changes {
+        let removed = new.is_none();
+        let ok = match new {
+            None => store.delete(&k).is_ok(),
+            Some(t) => store.put(k.clone(), t).is_ok(),
+        };
+        if ok {
+            applied.push((k, orig, removed));
+        }
+    }
+    if applied.is_empty() {
+        return None;
+    }
+    let keys: BTreeSet<String> = applied.iter().map(|x| x.0.clone()).collect();
+    trace.push(format!("damage[{}{}] {} chunk(s) e.g. {} of {}", kind, if persist { ",stays" } else { "" }, keys.len(), short(&applied[0].0), sid(&id)));
+    // the sticky record comes first: the judgement below uses it
+    let mut now = dmg.clone();
+    for (k, _, removed) in &applied {
+        if *removed {
+            now.lost.insert(k.clone());
+        } else {
+            now.altered.insert(k.clone());
+        }
+    }
+    let v2 = view(store);
     let mut out = None;
     for (aid, l) in &v.metas {
-        if !live.contains_key(aid) || !l.contains(&key) {
+        let want = match live.get(aid) {
+            Some(w) => w,
+            None => continue,
+        };
+        if !l.iter().any(|k| keys.contains(k)) {
+            continue;
+        }
+        // earlier damage may, by coincidence, cancel out (bytes moved between adjacent chunks)
+        if health(&v2, Some(l), want, c, &now) != (Health::Excused { content_differs: true }) {
             continue;
         }
         match blob.verify(aid) {
             Ok(true) => {
-                out = Some((format!("seq:verify-true-on-damaged-artifact:{kind}"), format!("chunk {} of artifact {} damaged underneath ({}), verify() still = Ok(true)", short(&key), sid(&aid), kind)));
+                out = Some((format!("{prefix}:verify-true-on-damaged-artifact:{kind}"), format!("chunk {} of artifact {} damaged underneath ({}), verify() still = Ok(true)", short(&applied[0].0), sid(aid), kind)));
                 break;
             }
             _ => r.count("damage_reported_by_verify", 1),
@@ -422,7 +592,7 @@ async fn damage_check(blob: &BlobStore, store: &TensorStore, live: &Live, rng: &
         if let Ok(mut rd) = blob.reader(aid).await {
             match rd.verify().await {
                 Ok(true) => {
-                    out = Some((format!("seq:reader-verify-true-on-damaged-artifact:{kind}"), format!("chunk {} of artifact {} damaged underneath ({}), BlobReader::verify() still = Ok(true)", short(&key), sid(&aid), kind)));
+                    out = Some((format!("{prefix}:reader-verify-true-on-damaged-artifact:{kind}"), format!("chunk {} of artifact {} damaged underneath ({}), BlobReader::verify() still = Ok(true)", short(&applied[0].0), sid(aid), kind)));
                     break;
                 }
                 _ => r.count("damage_reported_by_reader_verify", 1),
@@ -430,15 +600,47 @@ async fn damage_check(blob: &BlobStore, store: &TensorStore, live: &Live, rng: &
         }
     }
     if out.is_none() {
-        match tensor_blob::verify_chunk(store, &key) {
-            Ok(true) => out = Some((format!("seq:verify_chunk-true-on-damaged-chunk:{kind}"), format!("chunk {} damaged underneath ({}), verify_chunk = Ok(true)", short(&key), kind))),
-            _ => r.count("damage_reported_by_verify_chunk", 1),
+        for (k, _, _) in &applied {
+            match tensor_blob::verify_chunk(store, k) {
+                Ok(true) => {
+                    out = Some((format!("{prefix}:verify_chunk-true-on-damaged-chunk:{kind}"), format!("chunk {} damaged underneath ({}), verify_chunk = Ok(true)", short(k), kind)));
+                    break;
+                }
+                _ => r.count("damage_reported_by_verify_chunk", 1),
+            }
         }
     }
     r.count(&format!("damage[{}]", kind), 1);
-    // put the original record back (the program goes on with an undamaged store)
-    let _ = store.put(key, orig);
+    if persist {
+        *dmg = now;
+        r.count("damage_left_in_store", 1);
+    } else {
+        // put the original records back (the program goes on with an undamaged store)
+        for (k, orig, _) in applied {
+            let _ = store.put(k, orig);
+        }
+    }
     out
+}
+
+/// the chunk keys an upload of `data` addresses
+fn upload_keys(data: &[u8], c: usize) -> Vec<String> {
+    data.chunks(c).map(|p| Chunk::new(p.to_vec()).key()).collect()
+}
+
+/// evidence: an upload that shares a chunk with a damaged stored chunk
+fn note_upload(store: &TensorStore, dmg: &Damage, data: &[u8], c: usize, r: &mut Report) {
+    if !dmg.any() {
+        return;
+    }
+    let keys = upload_keys(data, c);
+    if keys.iter().any(|k| dmg.altered.contains(k) && store.exists(k)) {
+        r.count("uploads_sharing_a_chunk_with_an_altered_stored_chunk", 1);
+    }
+    if keys.iter().any(|k| dmg.lost.contains(k)) {
+        r.count("uploads_sharing_a_chunk_with_a_lost_chunk", 1);
+    }
+    r.count("uploads_with_damage_present", 1);
 }
 
 async fn stream_read_check(blob: &BlobStore, id: &str, want: &[u8], rng: &mut Rng, c: usize, r: &mut Report) -> Option<Viol> {
@@ -481,10 +683,10 @@ async fn stream_read_check(blob: &BlobStore, id: &str, want: &[u8], rng: &mut Rn
 }
 
 /// what a collection removed must have been unreferenced at that moment
-fn removed_only_unreferenced(before: &View, after: &View, live: &Live, pending: &HashMap<String, i64>, op: &str) -> Option<Viol> {
+fn removed_only_unreferenced(before: &View, after: &View, live: &Live, pending: &HashMap<String, i64>, dmg: &Damage, op: &str) -> Option<Viol> {
     let occ = occurrences(before, live.keys());
     for k in before.chunks.keys() {
-        if !after.chunks.contains_key(k) {
+        if !after.chunks.contains_key(k) && !dmg.lost.contains(k) {
             let o = occ.get(k).copied().unwrap_or(0) + pending.get(k).copied().unwrap_or(0);
             if o > 0 {
                 return Some((format!("seq:{op}-removed-referenced-chunk"), format!("{op} removed chunk {} which occurs {} time(s) in live artifacts' chunk lists (stored _refs was {:?})", short(k), o, before.chunks[k].refs)));
@@ -512,6 +714,10 @@ async fn seq_case_async(case_seed: u64, big: bool, r: &mut Report) {
     let c: usize = if big { 1024 * 1024 } else { *rng.pick(&[16usize, 16, 64]) };
     let batch = *rng.pick(&[1usize, 3, 100, 1 << 20]);
     let real_clock = !big && rng.chance(1, 120);
+    // half of the programs keep injected damage in the store and go on using it
+    let persist = rng.bool();
+    let mut dmg = Damage::default();
+    let mut damages_left = if persist { 1 + rng.below(3) } else { usize::MAX };
     let (blob, store) = match mk_blob(if big { None } else { Some(c) }, batch).await {
         Ok(x) => x,
         Err(e) => {
@@ -599,7 +805,7 @@ async fn seq_case_async(case_seed: u64, big: bool, r: &mut Report) {
                 if have_open { 0 } else { 4 },
                 if have_open { 0 } else { 3 },
                 if live.is_empty() { 0 } else { 6 },
-                if live.is_empty() || have_open { 0 } else { 5 },
+                if live.is_empty() || have_open || damages_left == 0 { 0 } else if persist { 8 } else { 5 },
                 if have_open { 0 } else { 1 },
             ]
         };
@@ -610,6 +816,7 @@ async fn seq_case_async(case_seed: u64, big: bool, r: &mut Report) {
                 let data = gen_content(&mut rng, &pool, &live_contents, big);
                 note_size(&mut sizes_seen, data.len(), c);
                 trace.push(format!("put({})", data.len()));
+                note_upload(&store, &dmg, &data, c, r);
                 match blob.put("f", &data, PutOptions::new()).await {
                     Ok(id) => {
                         r.count("puts", 1);
@@ -667,6 +874,7 @@ async fn seq_case_async(case_seed: u64, big: bool, r: &mut Report) {
                     o.written = o.data.len();
                 }
                 trace.push(format!("finish#{}({})", i, o.written));
+                note_upload(&store, &dmg, &o.data[..o.written], c, r);
                 match o.w.finish().await {
                     Ok(id) => {
                         r.count("streams_finished", 1);
@@ -723,6 +931,12 @@ async fn seq_case_async(case_seed: u64, big: bool, r: &mut Report) {
                 let pending = pending_of(&opens, c);
                 let before = view(&store);
                 trace.push(name.to_string());
+                if dmg.any() {
+                    r.count(&format!("{}_calls_with_damage_in_store", name), 1);
+                    if live.iter().any(|(id, want)| matches!(health(&before, before.metas.get(id), want, c, &dmg), Health::Excused { .. })) {
+                        r.count(&format!("{}_calls_with_damaged_artifact_present", name), 1);
+                    }
+                }
                 let removed = match op {
                     7 => blob.gc().await.map(|s| s.deleted),
                     8 => blob.full_gc().await.map(|s| s.deleted),
@@ -738,7 +952,7 @@ async fn seq_case_async(case_seed: u64, big: bool, r: &mut Report) {
                 r.count(&format!("{}_calls", name), 1);
                 collections += 1;
                 let after = view(&store);
-                if let Some(v) = removed_only_unreferenced(&before, &after, &live, &pending, name) {
+                if let Some(v) = removed_only_unreferenced(&before, &after, &live, &pending, &dmg, name) {
                     fail!(v);
                 }
                 if op == 9 {
@@ -748,14 +962,22 @@ async fn seq_case_async(case_seed: u64, big: bool, r: &mut Report) {
             10 => {
                 let ids: Vec<String> = live.keys().cloned().collect();
                 let id = rng.pick(&ids).clone();
-                trace.push(format!("stream-read({})", sid(&id)));
                 let want = live[&id].clone();
-                if let Some(v) = stream_read_check(&blob, &id, &want, &mut rng, c, r).await {
-                    fail!(v);
+                let vw = view(&store);
+                if health(&vw, vw.metas.get(&id), &want, c, &dmg) != Health::Judge {
+                    trace.push(format!("stream-read({}) skipped: damaged", sid(&id)));
+                } else {
+                    trace.push(format!("stream-read({})", sid(&id)));
+                    if let Some(v) = stream_read_check(&blob, &id, &want, &mut rng, c, r).await {
+                        fail!(v);
+                    }
                 }
             }
             11 => {
-                if let Some(v) = damage_check(&blob, &store, &live, &mut rng, r, &mut trace).await {
+                if persist {
+                    damages_left -= 1;
+                }
+                if let Some(v) = damage_check(&blob, &store, &live, c, persist, &mut dmg, &mut rng, r, &mut trace, "seq").await {
                     fail!(v);
                 }
             }
@@ -798,7 +1020,7 @@ async fn seq_case_async(case_seed: u64, big: bool, r: &mut Report) {
             extra.retain(|k, _| present.contains(k));
         }
         let before_shared = r.counters.get("shared_chunk_observations").copied().unwrap_or(0);
-        if let Some(v) = check_quiescent(&blob, &store, &live, &Slack { pending: &pending, extra: &extra }, "seq", r).await {
+        if let Some(v) = check_quiescent(&blob, &store, &live, &Slack { pending: &pending, extra: &extra }, &dmg, c, "seq", "", r).await {
             fail!(v);
         }
         if r.counters.get("shared_chunk_observations").copied().unwrap_or(0) > before_shared {
@@ -814,11 +1036,14 @@ async fn seq_case_async(case_seed: u64, big: bool, r: &mut Report) {
     } else {
         r.count("seq_programs", 1);
         r.count(&format!("seq_programs[chunk={}]", c), 1);
+        if dmg.any() {
+            r.count("seq_programs_continued_with_damage_in_store", 1);
+        }
     }
     let nontrivial = shared_seen && deletes > 0 && collections > 0;
     r.eval(hash_str(&format!("{}|{}|{}", c, batch, trace.join(";"))), nontrivial);
     if r.want_sample() && (big || rng.chance(1, 20)) {
-        r.sample(json!({"part": part, "chunk_size": c, "gc_batch": batch, "real_clock": real_clock, "program": trace.iter().take(40).collect::<Vec<_>>()}));
+        r.sample(json!({"part": part, "chunk_size": c, "gc_batch": batch, "real_clock": real_clock, "damage_stays": persist, "program": trace.iter().take(40).collect::<Vec<_>>()}));
     }
 }
 
@@ -1123,6 +1348,7 @@ async fn conc_case_async(mut rng: Rng, scen: Scen, workers: usize, replay: Value
     let rounds = 2 + rng.below(5);
     let none: HashMap<String, i64> = HashMap::new();
     let mut history: Vec<String> = Vec::new();
+    let mut dmg = Damage::default();
 
     macro_rules! seq_put {
         ($ci:expr) => {{
@@ -1237,6 +1463,16 @@ async fn conc_case_async(mut rng: Rng, scen: Scen, workers: usize, replay: Value
                 }
             }
         }
+        // ---------------- sometimes: damage underneath that stays while the store keeps being used
+        if !live.is_empty() && rng.chance(1, 3) {
+            let lb: Live = live.iter().map(|(id, ci)| (id.clone(), contents[*ci].clone())).collect();
+            let mut t = Vec::new();
+            if let Some((sig, detail)) = damage_check(&sh.blob, &store, &lb, c, true, &mut dmg, &mut rng, r, &mut t, &prefix).await {
+                r.violation(sig, format!("{} | {}", detail, history.join(" | ")), replay.clone());
+                return true;
+            }
+            history.extend(t);
+        }
         // ---------------- concurrent phase
         let n_actors = plans.len();
         let n_mut = plans.iter().filter(|p| p.1).count();
@@ -1308,6 +1544,11 @@ async fn conc_case_async(mut rng: Rng, scen: Scen, workers: usize, replay: Value
         }
         r.count("conc_rounds", 1);
         r.count(&format!("conc_rounds[{}]", scen.name()), 1);
+        if dmg.any() {
+            r.count("conc_rounds_with_damage_in_store", 1);
+            r.count("conc_collections_with_damage_in_store", results.iter().map(|x| x.collections).sum());
+            r.count("conc_puts_with_damage_in_store", results.iter().map(|x| x.made.len() as u64).sum());
+        }
         r.count("conc_ops", nops);
         r.count("conc_ops_overlapping_another_actor", overlapped);
         r.count("conc_chunks_collected_during_rounds", collected);
@@ -1327,13 +1568,17 @@ async fn conc_case_async(mut rng: Rng, scen: Scen, workers: usize, replay: Value
         // ---------------- quiescent oracle
         let live_bytes: Live = live.iter().map(|(id, ci)| (id.clone(), contents[*ci].clone())).collect();
         let ctx = |history: &Vec<String>| format!("chunk_size={} contents={:?} workers={} | {}", c, contents.iter().map(|x| x.len()).collect::<Vec<_>>(), workers, history.join(" | "));
-        if let Some((sig, detail)) = check_quiescent(&sh.blob, &store, &live_bytes, &Slack { pending: &none, extra: &none }, &prefix, r).await {
+        if let Some((sig, detail)) = check_quiescent(&sh.blob, &store, &live_bytes, &Slack { pending: &none, extra: &none }, &dmg, c, &prefix, "", r).await {
             // describe the user-visible consequence of a wrong count: let time pass, collect, read
             let mut consequence = String::new();
             if sig.ends_with("refcount-undercount") {
                 age_chunks(&store, 100);
                 let _ = sh.blob.gc().await;
+                let vw = view(&store);
                 for (id, want) in &live_bytes {
+                    if health(&vw, vw.metas.get(id), want, c, &dmg) != Health::Judge {
+                        continue;
+                    }
                     if let Err((_, d)) = read_check(&sh.blob, id, want, &prefix, "").await {
                         consequence = format!(" | consequence after time passes and gc(): {}", d);
                         break;
@@ -1349,11 +1594,9 @@ async fn conc_case_async(mut rng: Rng, scen: Scen, workers: usize, replay: Value
             Ok(s) => r.count("conc_chunks_collected_at_quiescence", s.deleted as u64),
             Err(_) => {}
         }
-        for (id, want) in &live_bytes {
-            if let Err((sig, d)) = read_check(&sh.blob, id, want, &prefix, "-after-gc").await {
-                r.violation(sig, format!("{} | {}", d, ctx(&history)), replay.clone());
-                return true;
-            }
+        if let Some((sig, d)) = check_quiescent(&sh.blob, &store, &live_bytes, &Slack { pending: &none, extra: &none }, &dmg, c, &prefix, "-after-gc", r).await {
+            r.violation(sig, format!("{} | {}", d, ctx(&history)), replay.clone());
+            return true;
         }
         if r.want_sample() && round == 0 && rng.chance(1, 10) {
             r.sample(json!({"part": "concurrent", "scenario": scen.name(), "chunk_size": c, "content_sizes": contents.iter().map(|x| x.len()).collect::<Vec<_>>(), "round": history.last(), "ops": nops, "ops_overlapping": overlapped, "live_after": live.len()}));
@@ -1432,7 +1675,7 @@ fn main() {
             // real-clock cases sleep: oversubscribe a little so that sleeping workers do not idle cores
             let rep = par_cases(args.threads + args.threads / 2, args.seed ^ 0x5E9, n, args.budget(45, 420), |_i, s, r| seq_case(s, false, r));
             total.merge(rep);
-            floors.extend([("seq_programs", 300), ("reads_checked", 5_000), ("chunk_refcounts_checked", 5_000), ("shared_chunk_observations", 1_000), ("gc_chunks_removed", 100), ("full_gc_chunks_removed", 100), ("damage_reported_by_verify", 100), ("streams_finished", 300), ("streamed_reads_checked", 100), ("purges_checked", 300)]);
+            floors.extend([("seq_programs", 300), ("reads_checked", 5_000), ("chunk_refcounts_checked", 5_000), ("shared_chunk_observations", 1_000), ("gc_chunks_removed", 100), ("full_gc_chunks_removed", 100), ("damage_reported_by_verify", 100), ("streams_finished", 300), ("streamed_reads_checked", 100), ("purges_checked", 300), ("seq_programs_continued_with_damage_in_store", 100), ("healthy_reads_with_damage_present", 2_000), ("damaged_artifacts_reported_by_verify", 500), ("gc_calls_with_damaged_artifact_present", 100), ("full_gc_calls_with_damaged_artifact_present", 50), ("uploads_sharing_a_chunk_with_an_altered_stored_chunk", 100), ("uploads_sharing_a_chunk_with_a_lost_chunk", 100), ("altered_chunk_refcounts_checked", 500)]);
         }
         if want("default-chunk") {
             let rep = par_cases(1, args.seed ^ 0xD1, args.by_tier(1, 4), args.budget(60, 240), |_i, s, r| seq_case(s, true, r));
@@ -1445,7 +1688,7 @@ fn main() {
                 conc_case(s, forced, r);
             });
             total.merge(rep);
-            floors.extend([("conc_rounds", 100), ("conc_ops", 2_000), ("conc_ops_overlapping_another_actor", 100), ("conc_puts", 1_000), ("conc_deletes", 100)]);
+            floors.extend([("conc_rounds", 100), ("conc_ops", 2_000), ("conc_ops_overlapping_another_actor", 100), ("conc_puts", 1_000), ("conc_deletes", 100), ("conc_rounds_with_damage_in_store", 50), ("conc_collections_with_damage_in_store", 100), ("conc_puts_with_damage_in_store", 300)]);
         }
         if part == "inflight" {
             let rep = par_cases(args.threads, args.seed ^ 0x1F, args.by_tier(60, 600), args.budget(30, 60), |_i, s, r| inflight_case(s, r));
@@ -1456,14 +1699,16 @@ fn main() {
 
     let meta = Meta {
         property: "C19",
-        rule: "seq: one evaluation = one random sequential program (15-60 steps; chunk size 16 or 64; put / up to 3 interleaved streamed writers fed in random pieces, finished early or abandoned / delete / time passing / gc / full_gc / repair / streamed read / damage one chunk underneath) on the real BlobStore with the complete oracle (exact bytes of every live artifact, verify true, per-chunk stored _refs = occurrences in live artifacts' chunk lists, every referenced chunk present, collections removed only unreferenced chunks, no content under two keys, damage always reported, delete-all + full_gc leaves no chunk) evaluated after every step; distinct by the hash of (chunk size, gc batch, op trace); non-trivial if some chunk was shared by >= 2 list entries of live artifacts, at least one delete and at least one collection happened. concurrent: one evaluation = one round of 2-4 tokio tasks (multi-thread runtime) judged at quiescence; distinct by the hash of (scenario, actor order of operation invocations); non-trivial if at least one operation's invocation..response interval contained another actor's event.",
+        rule: "seq: one evaluation = one random sequential program (15-60 steps; chunk size 16 or 64; put / up to 3 interleaved streamed writers fed in random pieces, finished early or abandoned / delete / time passing / gc / full_gc / repair / streamed read / damage one chunk underneath) on the real BlobStore with the complete oracle (exact bytes of every live artifact, verify true, per-chunk stored _refs = occurrences in live artifacts' chunk lists, every referenced chunk present, collections removed only unreferenced chunks, no content under two keys, damage always reported, delete-all + full_gc leaves no chunk) evaluated after every step; in half of the programs the injected damage stays in the store and the program continues on it (healthy artifacts judged in full, damaged ones by verify); distinct by the hash of (chunk size, gc batch, op trace); non-trivial if some chunk was shared by >= 2 list entries of live artifacts, at least one delete and at least one collection happened. concurrent: one evaluation = one round of 2-4 tokio tasks (multi-thread runtime) judged at quiescence; distinct by the hash of (scenario, actor order of operation invocations); non-trivial if at least one operation's invocation..response interval contained another actor's event.",
         assumptions: vec![
             "time passing is produced by moving `_created` of stored chunks 100 s into the past at quiescent points (the collector only compares that field with the clock); a few sequential programs really sleep 1.1 s instead".into(),
             "put(empty) answering EmptyData is the documented contract and is not judged; a zero-length artifact is produced through the streamed writer".into(),
             "an unexpected Err from put/write/finish/delete/gc is reported as inconclusive, not as a violation (the statement does not speak about availability)".into(),
             "references held by open writers are expected on top of the live artifacts' occurrences; references leaked by abandoned writers are tolerated (upper bound only) until the next repair".into(),
             "full_gc / repair are never issued while a streamed writer is open in the judged parts (the statement is silent about in-flight uploads; see --part inflight)".into(),
-            "damage that leaves the concatenated content unchanged (moving bytes between adjacent chunks) is not generated: the artifact would still read back exactly".into(),
+            "damage that leaves the concatenated content unchanged (moving bytes between adjacent chunks) is not generated: the artifact would still read back exactly; should several injected damages cancel out that way, the artifact is not judged".into(),
+            "half of the sequential programs (1-3 injections) and a third of the concurrent rounds leave the injected damage in the store and continue: an artifact all of whose listed chunks still hold its bytes is judged in full (byte-exact read, verify true, chunks never collected); an artifact that is unhealthy only through keys the harness damaged is judged by verify not answering Ok(true); an artifact unhealthy through any other key is judged in full (and so reported)".into(),
+            "reference counts stay judged for chunks whose _data the harness altered (record and _refs were kept); for a key whose record the harness removed the count is void for the rest of the program (a later upload re-creates it with count 1 while older artifacts still list it), so such keys are exempt from conservation and from 'collected while referenced'".into(),
             "concurrent: each artifact is deleted by exactly one task except in scenario same-artifact-deleted-twice; gc-vs-writer has exactly one writer and no deleter so that the only racing parties are the collector and the deduplicating writer".into(),
         ],
         floors: if args.replay.is_some() { vec![] } else { floors },
